@@ -22,6 +22,7 @@ RULE = (
     "Non-trivial: >=2 types and (block orders differ or an operand went through a pytree round trip); distinct by "
     "(type set, orders, histories, layout)."
 )
+RULE += " Use-then-mutate-then-use histories (every 4th case): operands used (scalar multiple, sum, ==, to_vector/from_vector), then grown in place by append on an existing type / __setitem__ with another shape or other values, then monitored."
 RULE += " Augmented assignment (+= -= *= /=) and != as further spellings; one multi-image holding blocks of different dtypes (int32 first, float32 with non-integer values). Also: ONE jitted callable reused for both storage orders; operand representations float32 / NumPy blocks / int32 / float64 under x64; scalar representations."
 ASSUMPTIONS = ["float32 arithmetic on integers below 2^24 is exact", "NumPy per-type evaluation as the oracle"]
 ANCHORS = [
@@ -239,6 +240,37 @@ def _run(case, ctx, rep):
         import traceback
 
         return result(f"build-exc", [viol(f"construction-exception-{type(e).__name__}", f"building an operand raised {type(e).__name__}: {str(e)[:200]}; D={D} n_lead={n_lead} types={list(blocks_a)}; {traceback.format_exc()[-400:]}")], True)
+    # use-then-mutate-then-use histories (every 4th case): both operands are first *used* (scalar multiple, division, sum,
+    # difference, ==, to_vector/from_vector - anything that could fill a per-object memo), then mutated in place through the
+    # public mutators (append of further channels to an existing type; __setitem__ with other values / another shape), and
+    # only then enter the monitored operations: the result is a function of the current blocks, not of earlier uses
+    if case["i"] % 4 == 1:
+        rg = np.random.default_rng([ctx["seed"], 12, case["i"], 99])
+        grow_types = [t for t in blocks_a if rg.integers(0, 2)] or [list(blocks_a)[0]]
+        how = ["append", "setitem-shape"][int(rg.integers(2))] if n_lead >= 1 else "setitem-values"
+        try:
+            for mi in (a, b):
+                for f_ in (lambda m: m * 2.0, lambda m: m / 2.0, lambda m: m + m, lambda m: m - m, lambda m: m == m,
+                           lambda m: geom.MultiImage.from_vector(m.to_vector(), m), lambda m: m.size()):
+                    f_(mi)
+            blocks_a, blocks_b = dict(blocks_a), dict(blocks_b)
+            for t in grow_types:
+                for mi, blk in ((a, blocks_a), (b, blocks_b)):
+                    extra = (blk[t] + np.asarray(500000, dtype=blk[t].dtype)).astype(blk[t].dtype)
+                    if how == "append":
+                        mi.append(t[0], t[1], _CONV(extra), axis=n_lead - 1)
+                        blk[t] = np.concatenate([blk[t], extra], axis=n_lead - 1)
+                    elif how == "setitem-shape":
+                        blk[t] = np.concatenate([extra, blk[t], extra], axis=n_lead - 1)
+                        mi[t] = _CONV(blk[t])
+                    else:
+                        blk[t] = extra
+                        mi[t] = _CONV(extra)
+            ha, hb = ha + ["use", f"{how}:{grow_types}"], hb + ["use", f"{how}:{grow_types}"]
+        except Exception as e:
+            import traceback
+
+            return result("build-exc", [viol(f"construction-exception-{type(e).__name__}", f"use-then-{how} history raised {type(e).__name__}: {str(e)[:200]}; D={D} n_lead={n_lead} types={list(blocks_a)}; {traceback.format_exc()[-400:]}")], True)
     # the construction history must not have changed the content (guards the harness itself)
     for nm, mi, blk in (("a", a, blocks_a), ("b", b, blocks_b)):
         for t, v in blk.items():
